@@ -350,6 +350,9 @@ func cmdCheck(args []string) int {
 		rep.Paths = ex.paths
 		rep.Returns = ex.returns
 		rep.Uncontracted = sortedKeys(ex.uncontracted)
+		if *verbose && len(rep.Uncontracted) > 0 {
+			fmt.Printf("  uncontracted calls in %s: %s\n", fc.Name, strings.Join(rep.Uncontracted, ", "))
+		}
 		rep.Uses = sortedKeys(ex.usedContracts)
 		if ex.aborted != "" {
 			rep.Aborted = ex.aborted
@@ -375,6 +378,17 @@ func cmdCheck(args []string) int {
 			continue
 		}
 		obs = append(obs, &Obligation{Name: lm.Name, Kind: "lemma", Func: "lemma " + lm.Name, Pos: fmt.Sprintf("%s:%d", filepath.Base(lm.File), lm.Line), Src: lm.Src, Goal: cv.T, Expect: "unsat", Props: lm.Props})
+		// a lemma checked in this run may be used by the function obligations of this run
+		syms := map[string]bool{}
+		symbolsOf(cv.T.S, syms)
+		var trig []string
+		for s := range syms {
+			if _, ok := w.CS.Specs[strings.Trim(s, "|")]; ok {
+				trig = append(trig, s)
+			}
+		}
+		sort.Strings(trig)
+		w.lemmaAx = append(w.lemmaAx, smtAxiom{name: "lemma:" + lm.Name, syms: trig, text: "(assert " + cv.T.S + ")"})
 	}
 
 	// consistency canary: the axioms in scope must not be refutable
@@ -429,7 +443,7 @@ func (w *World) guardsFor(sp *ssa.Package, prop string) []*guardInfo {
 		if obj == nil {
 			continue
 		}
-		st, ok := obj.Type().Underlying().(*types.Struct)
+		st, ok := asStruct(obj.Type())
 		if !ok {
 			continue
 		}
@@ -518,7 +532,7 @@ func report(w *World, obs []*Obligation, reports []*funcReport, toolErrors, trus
 	for _, ob := range failing {
 		if ob.Kind == "canary" {
 			if ob.Result == "refuted" {
-				toolErrors = append(toolErrors, "axioms are contradictory (canary unsat): "+ob.Solver)
+				toolErrors = append(toolErrors, "axioms are contradictory (canary unsat): "+ob.Solver+" script: "+writeReplay(w, ob, rc))
 			} else {
 				discharged++
 			}
